@@ -148,6 +148,9 @@ func (pool *TransactionsPool) Validate(timestamp int64) {
 }
 
 func (pool *TransactionsPool) addTransaction(transaction *ledger.Transaction) error {
+	if transaction == nil {
+		return errors.New("the transaction is missing")
+	}
 	lastBlockTimestamp := pool.blocksManager.LastBlockTimestamp()
 	if lastBlockTimestamp == 0 {
 		return errors.New("the blockchain is empty")
